@@ -417,6 +417,10 @@ func run(r *mon.Run) {
 		outp := in + ".signed"
 		os.WriteFile(in, orig, 0o644)
 		key := fmt.Sprintf("ib:cli:%d", i)
+		if i%2 == 0 {
+			// the output path already exists and is longer than the result (re-signing to the same -o path)
+			os.WriteFile(outp, bytes.Repeat([]byte("stale output "), (size+4096)/13+1), 0o644)
+		}
 		o, err := exec.Command(cli, "integrity-block", "-i", in, "-o", outp, "-privateKey", keyPath).CombinedOutput()
 		wantID := rib.WebBundleID(pub)
 		outcome := "cli:signed"
